@@ -416,17 +416,14 @@ pub fn run<M: Matcher>(
     run_with(&mut searcher, matcher, strat, input, sink_fault, read_fault)
 }
 
-/// As `run`, with a searcher built by `build_searcher(cfg, strat)` that the
-/// caller reuses across searches.
-pub fn run_with<M: Matcher>(
+fn search_into<M: Matcher, S: grep_searcher::Sink<Error = io::Error>>(
     searcher: &mut Searcher,
     matcher: M,
     strat: &Strat,
     input: &[u8],
-    sink_fault: Option<SinkFault>,
     read_fault: Option<ReadFault>,
-) -> RunOut {
-    let mut sink = RecSink::new(sink_fault);
+    mut sink: S,
+) -> (Result<(), io::Error>, usize, usize, bool) {
     let mut reads = 0;
     let mut data_reads = 0;
     let mut fired = false;
@@ -448,6 +445,26 @@ pub fn run_with<M: Matcher>(
             r
         }
     };
+    (result, reads, data_reads, fired)
+}
+
+/// As `run`, with a searcher built by `build_searcher(cfg, strat)` that the
+/// caller reuses across searches.
+pub fn run_with<M: Matcher>(
+    searcher: &mut Searcher,
+    matcher: M,
+    strat: &Strat,
+    input: &[u8],
+    sink_fault: Option<SinkFault>,
+    read_fault: Option<ReadFault>,
+) -> RunOut {
+    let mut sink = RecSink::new(sink_fault);
+    // The searcher accepts a sink by value, by `&mut` and boxed (`impl Sink for Box<S>` forwards
+    // every method): a third of the inputs - a fixed function of the input, so that replays agree -
+    // go through the boxed forwarding impl.
+    let boxed = input.len() % 3 == 1;
+    let (result, reads, data_reads, fired) =
+        if boxed { search_into(searcher, matcher, strat, input, read_fault, Box::new(&mut sink)) } else { search_into(searcher, matcher, strat, input, read_fault, &mut sink) };
     RunOut {
         events: sink.events,
         after_fault: sink.after_fault,
